@@ -174,7 +174,7 @@ fn judge(rec: &mut Rec, kind: Kind, i: i128, off: i32, pattern: &str, single: Op
                             let p1: String = std::iter::repeat(c).take(w).collect();
                             if let (Ok(e1), Ok(g1)) = (render_run(&v, c, w), trap(|| lib_format(kind, i, off, &p1))) {
                                 if e1 != g1 {
-                                    let tag = format!("{}x{}[{}]", c, w.min(11), value_class(&v, c));
+                                    let tag = format!("{}[{}]", c, value_class(&v, c));
                                     if !culprits.contains(&tag) {
                                         culprits.push(tag);
                                     }
@@ -184,7 +184,7 @@ fn judge(rec: &mut Rec, kind: Kind, i: i128, off: i32, pattern: &str, single: Op
                     }
                 }
                 culprits.sort();
-                culprits.truncate(3);
+                culprits.truncate(1);
                 let what = if culprits.is_empty() { "tokenisation/quoting/literals".to_string() } else { culprits.join("+") };
                 rec.violation(format!("C11|{}|format|wrong-rendering|{}", kind_name(kind), what), || wit(json!(got)));
             }
